@@ -1230,7 +1230,7 @@ func TestC01(t *testing.T) {
 	n := run.N(320, 2400)
 	readersPerWorld := run.N(2, 3)
 	workersPerWorld := 2
-	perWorld := run.N(40, 250) // cases per world generation
+	perWorld := run.N(40, 60) // cases per world generation (ListCacheFiles walks every shard directory ever created: keep worlds young)
 	root := ev.TempDir(t, "c01-")
 
 	// the case list: case i -> configuration i%4, world generation (i/4)/perWorld
